@@ -87,6 +87,8 @@ def rand_note(rng):
         n["acc"] = rng.choice(ACCS)
     if k in "sh" and rng.random() < 0.35:
         n["mode"] = rng.choice(MODES)
+    if k in "hcba" and rng.random() < 0.1:
+        n["acc"] = rng.choice(ACCS)            # an accidental on a note that is not a scale note is kept by the note and ignored by its pitch
     if k in "cba" and rng.random() < 0.15:
         n["mode"] = rng.choice(MODES)          # chord tones, bass tones and absolute notes are counted along the chord's own arpeggio: a per-note mode does not move them
     return n
